@@ -2,6 +2,8 @@ package c13
 
 import (
 	"bytes"
+	"io"
+	"strings"
 	"context"
 	"encoding/json"
 	"errors"
@@ -136,4 +138,109 @@ func genConcEmit(t *rapid.T) ConcEmit {
 func init() {
 	parts = append(parts, engine.Part[ConcEmit]{Name: "concurrent", Run: runConcEmit, Gen: genConcEmit,
 		Rule: "2-8 goroutines issue batches of 1-6 calls with paddings of different length on one Client at once (real scheduler); an observer on the channel checks every record at the moment it is passed to Send: valid one-line JSON, all members from one issued batch, member count as issued, and unchanged when Send returns; non-trivial = at least two goroutines; distinct = the case"})
+}
+
+// ConcServer: many handlers of one server finish at the same moment; what the
+// server writes goes through a header framing (whose Send builds every frame in
+// one shared buffer - safe for one sender at a time, which is all the Channel
+// contract promises) into a pipe, and the peer decodes the frames again.
+type ConcServer struct {
+	Calls  int `json:"calls"`
+	Rounds int `json:"rounds"`
+	Pad    int `json:"pad"`
+}
+
+func runConcServer(_ *testing.T, c ConcServer) engine.Verdict {
+	for round := 0; round < c.Rounds; round++ {
+		cr, sw := io.Pipe() // server -> peer
+		sr, cw := io.Pipe() // peer -> server
+		srvCh := channel.Header("")(sr, sw)
+		peer := channel.Header("")(cr, cw)
+		var entered sync.WaitGroup
+		entered.Add(c.Calls)
+		release := make(chan struct{})
+		srv := jrpc2.NewServer(handler.Map{"work": func(ctx context.Context, req *jrpc2.Request) (any, error) {
+			var p struct{ N int }
+			req.UnmarshalParams(&p)
+			entered.Done()
+			<-release
+			return map[string]any{"n": p.N, "pad": strings.Repeat("r", (p.N*37+round)%(c.Pad+1))}, nil
+		}}, &jrpc2.ServerOptions{Concurrency: c.Calls}).Start(srvCh)
+		go func() {
+			for i := 0; i < c.Calls; i++ {
+				peer.Send([]byte(fmt.Sprintf(`{"jsonrpc":"2.0","id":%d,"method":"work","params":{"N":%d}}`, i+1, i)))
+			}
+		}()
+		entered.Wait()
+		close(release)
+		got := map[int]bool{}
+		bad := ""
+		done := make(chan struct{})
+		go func() {
+			defer close(done)
+			for len(got) < c.Calls {
+				rec, err := peer.Recv()
+				if err != nil {
+					bad = fmt.Sprintf("after %d of %d replies the peer's framing fails: %v", len(got), c.Calls, err)
+					return
+				}
+				var m struct {
+					V      string `json:"jsonrpc"`
+					ID     int    `json:"id"`
+					Result struct {
+						N   int
+						Pad string
+					} `json:"result"`
+				}
+				if msg := oneLineJSON(rec); msg != "" {
+					bad = fmt.Sprintf("record %s: %s", engine.Q(clipB(rec)), msg)
+					return
+				}
+				if err := json.Unmarshal(rec, &m); err != nil || m.V != "2.0" || m.ID != m.Result.N+1 || got[m.ID] ||
+					m.Result.Pad != strings.Repeat("r", (m.Result.N*37+round)%(c.Pad+1)) {
+					bad = fmt.Sprintf("record %s is not the reply of one of the %d calls (%v, seen before: %v)", engine.Q(clipB(rec)), c.Calls, err, got[m.ID])
+					return
+				}
+				got[m.ID] = true
+			}
+		}()
+		select {
+		case <-done:
+		case <-time.After(20 * time.Second):
+			// (generous: the replies normally arrive within a millisecond; a torn
+			// frame leaves the reader waiting for bytes that never come)
+			bad = fmt.Sprintf("only %d of %d replies could be decoded from what the server wrote", len(got), c.Calls)
+		}
+		srv.Stop()
+		cw.Close()
+		sw.Close()
+		cr.Close()
+		sr.Close()
+		srv.Wait()
+		<-done
+		if bad != "" {
+			return engine.Failf("C13/not-one-line-json", "%d handlers of one server return at the same moment, replies framed by channel.Header into a pipe: %s", c.Calls, bad)
+		}
+	}
+	return engine.Verdict{NonTrivial: c.Calls > 1, Labels: []string{"concurrent-replies"}, Counts: map[string]int64{"rounds": int64(c.Rounds)}}
+}
+
+// oneLineJSON is the universal condition of C13 on one emitted record.
+func oneLineJSON(rec []byte) string {
+	if !refjson.Valid(rec) {
+		return "not valid JSON"
+	}
+	if bytes.ContainsAny(rec, "\n\r") {
+		return "contains a line break"
+	}
+	return ""
+}
+
+func genConcServer(t *rapid.T) ConcServer {
+	return ConcServer{Calls: rapid.IntRange(2, 16).Draw(t, "calls"), Rounds: rapid.IntRange(1, 6).Draw(t, "rounds"), Pad: rapid.SampledFrom([]int{0, 7, 200, 5000}).Draw(t, "pad")}
+}
+
+func init() {
+	parts = append(parts, engine.Part[ConcServer]{Name: "concserver", Run: runConcServer, Gen: genConcServer,
+		Rule: "2-16 calls to one server whose handlers all return at the same moment (real scheduler), 1-6 rounds; the server's channel is channel.Header over a pipe, the peer decodes the frames: every reply is valid one-line JSON-RPC, belongs to one of the calls and arrives once; non-trivial = at least two calls; distinct = the case"})
 }
